@@ -5,7 +5,7 @@
 table Cpal {
     /// Table version number (=0).
     #[version]
-    #[compile(0)]
+    #[compile(self.compute_version())]
     version: u16,
     /// Number of palette entries in each palette.
     num_palette_entries: u16,
